@@ -66,6 +66,22 @@ def determinism(n, seed, pids=None):
     return 2 if bad else 0
 
 
+def jobs_independence(n, seed, pids=None):
+    """The set of run digests must not depend on how runs are batched over worker processes."""
+    pids = pids or runner.PROPS
+    os.environ["VERIF_NO_EVIDENCE"] = "1"
+    bad = 0
+    for pid in pids:
+        a, b = {}, {}
+        runner.run_check(pid, "quick", seed, jobs=1, runs=n, budget=3600, quiet=True, collect=a)
+        runner.run_check(pid, "quick", seed, jobs=16, runs=n, budget=3600, quiet=True, collect=b)
+        ok = a["digests"] == b["digests"] and a["n"] == b["n"]
+        print("jobs-independence %s: %s (%d runs, %d distinct non-trivial digests; 1 worker vs 16 workers)" %
+              (pid, "identical" if ok else "DIVERGED", a["n"], len(a["digests"])))
+        bad += 0 if ok else 1
+    return 2 if bad else 0
+
+
 def main(what, n, seed, props=None):
     pids = props.split(",") if props else None
     if what == "smoke":
@@ -75,5 +91,7 @@ def main(what, n, seed, props=None):
         return 0
     if what == "determinism":
         return determinism(n, seed, pids)
+    if what == "jobs":
+        return jobs_independence(n, seed, pids)
     print("unknown selftest", what)
     return 2
